@@ -275,12 +275,18 @@ type obsReply struct {
 
 var tokRe = regexp.MustCompile(`H[EP]\[([^\]]*)\]`)
 
+// tokOf returns the handler token of an error text; if the text carries several tokens
+// (somebody else's error mixed in) all of them, so that it cannot pass for the expected one
 func tokOf(s string) string {
-	m := tokRe.FindStringSubmatch(s)
-	if m == nil {
+	ms := tokRe.FindAllStringSubmatch(s, -1)
+	if len(ms) == 0 {
 		return ""
 	}
-	return m[1]
+	toks := make([]string, len(ms))
+	for i, m := range ms {
+		toks[i] = m[1]
+	}
+	return strings.Join(toks, "|")
 }
 
 func okReply(r *Reply) obsReply {
@@ -300,8 +306,11 @@ func classifyREST(status int, b []byte) obsReply {
 	e := func(c, tok string) obsReply { return obsReply{Class: c, Tok: tok, Raw: raw} }
 	switch {
 	case status == 200:
+		// exactly one JSON object with exactly the fields of Reply: nothing else may ride along
 		var r Reply
-		if err := json.Unmarshal(b, &r); err != nil {
+		dec := json.NewDecoder(bytes.NewReader(b))
+		dec.DisallowUnknownFields()
+		if err := dec.Decode(&r); err != nil || dec.More() {
 			return e("EOther", "")
 		}
 		o := okReply(&r)
@@ -489,11 +498,14 @@ func doWS(a *actor, srv *onet.Server, w *wsReq) (o obsReply) {
 
 var registerOnce sync.Once
 
-const roundDeadline = 12 * time.Second
+// the last set-up failed because the server did not answer /ok (not because of a panic)
+var lastSetupUnreachable bool
+
+const roundDeadline = 30 * time.Second
 
 // runScenario returns the observations of the rounds that were run; hung = the last of
 // them did not end (the process must not be reused: goroutines are stuck).
-func runScenario(in *input, emit func(interface{})) (discard bool, hung bool) {
+func runScenario(in *input, emit func(interface{}), started *bool) (discard bool, hung bool) {
 	registerOnce.Do(func() {
 		log.SetDebugVisible(0)
 		log.OutputToBuf()
@@ -525,6 +537,7 @@ func runScenario(in *input, emit func(interface{})) (discard bool, hung bool) {
 	}
 	okc.CloseIdleConnections()
 	if !reached {
+		lastSetupUnreachable = true
 		return true, false
 	}
 	actors := make([]*actor, len(in.Clients))
@@ -539,9 +552,9 @@ func runScenario(in *input, emit func(interface{})) (discard bool, hung bool) {
 		} else {
 			a.ws = onet.NewClient(suite, name)
 		}
-		a.ws.ReadTimeout = 20 * time.Second
+		a.ws.ReadTimeout = 45 * time.Second
 		a.tr = &http.Transport{DisableKeepAlives: !c.Keep, MaxIdleConnsPerHost: 4}
-		a.http = &http.Client{Transport: a.tr, Timeout: 20 * time.Second}
+		a.http = &http.Client{Transport: a.tr, Timeout: 45 * time.Second}
 		actors[i] = a
 	}
 	defer func() {
@@ -550,6 +563,7 @@ func runScenario(in *input, emit func(interface{})) (discard bool, hung bool) {
 			a.tr.CloseIdleConnections()
 		}
 	}()
+	*started = true // from here on whatever happens is an observation
 	for ri, rd := range in.Rounds {
 		out := make([]obsReply, len(rd))
 		done := make([]chan struct{}, len(rd))
@@ -892,7 +906,7 @@ func sortStrings(a []string) {
 func settle(done []chan struct{}, started []bool) {
 	stable := 0
 	last := ""
-	for t := 0; t < 400; t++ {
+	for t := 0; t < 1500; t++ {
 		time.Sleep(2 * time.Millisecond)
 		out := 0
 		for i, st := range started {
@@ -1001,20 +1015,40 @@ func childMain() {
 			b, _ := json.Marshal(x)
 			say("R " + string(b))
 		}
-		discard, hung := func() (d bool, h bool) {
-			defer func() {
-				// the scenario could not be set up (e.g. the port picked for the
-				// test server was taken in the meantime): not reached, not reported
-				if r := recover(); r != nil {
-					fmt.Fprintln(os.Stderr, "setup panic:", r)
-					d, h = true, false
+		// Setting the scenario up (a server on fresh ports that answers /ok) is tried three
+		// times. A panic during the set-up, before any request, is the environment (a port
+		// taken in the meantime): not reached. A server that does not answer /ok in any of
+		// the attempts is an observation ("U"), and so is a panic once the requests have
+		// begun ("C"): the rounds seen so far stand and the running one is unanswered.
+		discard, hung, unreachable := false, false, false
+		for attempt := 0; attempt < 3; attempt++ {
+			started := false
+			discard, hung = func() (d bool, h bool) {
+				defer func() {
+					if r := recover(); r != nil {
+						if started {
+							say("C " + short(fmt.Sprint(r)))
+							os.Exit(4)
+						}
+						fmt.Fprintln(os.Stderr, "setup panic:", r)
+						d, h = true, false
+					}
+				}()
+				if inp.Par != nil {
+					return runPar(&inp, emit, &started)
 				}
+				return runScenario(&inp, emit, &started)
 			}()
-			if inp.Par != nil {
-				return runPar(&inp, emit)
+			if !discard {
+				break
 			}
-			return runScenario(&inp, emit)
-		}()
+			unreachable = unreachable || lastSetupUnreachable
+			lastSetupUnreachable = false
+		}
+		if discard && unreachable {
+			say("U")
+			continue
+		}
 		if discard {
 			say("X")
 			continue
@@ -1121,6 +1155,12 @@ func runInChild(raw []byte) (obs []json.RawMessage, discard bool, died string) {
 				return obs, false, ""
 			case l == "X":
 				return nil, true, ""
+			case l == "U":
+				return obs, false, "cut: the server did not answer /ok in three attempts on fresh ports"
+			case strings.HasPrefix(l, "C "):
+				c.kill()
+				theChild = nil
+				return obs, false, "the scenario panicked in the harness's goroutine: " + l[2:]
 			case l == "H":
 				c.kill()
 				theChild = nil
@@ -1128,10 +1168,10 @@ func runInChild(raw []byte) (obs []json.RawMessage, discard bool, died string) {
 			case strings.HasPrefix(l, "R "):
 				obs = append(obs, json.RawMessage(l[2:]))
 			}
-		case <-time.After(90 * time.Second):
+		case <-time.After(150 * time.Second):
 			c.kill()
 			theChild = nil
-			return obs, false, "the process running the scenario did not answer for 90 s"
+			return obs, false, "the process running the scenario did not answer for 150 s"
 		}
 	}
 }
@@ -1156,6 +1196,7 @@ func run(raw json.RawMessage) lib.Case {
 	}
 	crashed := died != ""
 	if died != "" && died != "hung" && len(obs) < len(in.Rounds) {
+		// (a hung round has been reported by the child itself)
 		// the round that was running when the process died: nobody was answered
 		k := len(obs)
 		out := roundOut{Replies: make([]obsReply, len(in.Rounds[k]))}
@@ -1209,14 +1250,25 @@ func run(raw json.RawMessage) lib.Case {
 		coq = fmt.Sprintf("CMix %s\n    %s\n    %s\n    %s\n    %s", lib.List(cl), lib.List(rds), lib.List(obl), lib.List(ss), lib.List(so))
 		class = "stream-" + class
 	}
-	if crashed {
-		class += "-crash"
-	}
+	class += endSuffix(died)
 	var inp interface{}
 	if crashed {
 		inp = json.RawMessage(raw) // replay the whole scenario, not the truncated one
 	}
 	return lib.Case{Coq: coq, Class: class, Input: inp, Obs: obs, Nontrivial: n > 1}
+}
+
+// how a scenario that did not run to its end ended: three different things
+func endSuffix(died string) string {
+	switch {
+	case died == "":
+		return ""
+	case strings.HasPrefix(died, "cut:"):
+		return "-cut"
+	case died == "hung" || strings.Contains(died, "did not answer for"):
+		return "-hang"
+	}
+	return "-crash"
 }
 
 func sp(s string) *string { return &s }
